@@ -22,7 +22,7 @@ func init() {
 			"a listed owning field); (handout-release) every *cachedCryptoKey obtained from a keyCacher is closed or returned on every path; " +
 			"(drk-scoped) keys generated inside EncryptPayload are closed before return and never escape; (displaced-entry) a cache Set that can " +
 			"displace an entry holding another key object releases it first; (entry-written) every cacheEntry built reaches keyCache.write; " +
-			"(close-chains) factory/session/simple-cache/generic-cache Close reach every cache and entry they own. " +
+			"(close-chains) factory/session/simple-cache/generic-cache Close reach every cache and entry they own, and the key cache's generic cache is built with an eviction callback that closes the evicted entry's key on every path. " +
 			"This decides the shape of the code (all paths, all call sites), not run-time counts of live secrets.",
 		NotDecided: []string{"live-secret counts at quiescent moments", "'exactly once' across goroutines (sync.Once / atomic refcount semantics are trusted)",
 			"mlock budget", "timing of `go Remove()` after factory close", "behaviour of user-supplied SecretFactory implementations"},
